@@ -425,6 +425,14 @@ func (g *G) cdxTreeDoc(v int, inClass bool) M {
 			edges = append(edges, M{"ty": float64(ty), "src": g.Pick(ids), "tos": tos})
 		}
 	}
+	if !inClass && n >= 3 && g.Chance(0.3) {
+		// the shape a parsed SPDX document has: one single-target edge per relationship, so edges of
+		// the same source and type repeat, interleaved with edges of other sources
+		srcs := []string{g.Pick(ids), g.Pick(ids)}
+		for k := 0; k < 3+g.Int(4); k++ {
+			edges = append(edges, M{"ty": float64(g.Pick2([]int{10, 10, 10, 5})), "src": srcs[g.Int(2)], "tos": []any{g.Pick(ids)}})
+		}
+	}
 	if !inClass && n >= 3 && g.Chance(0.15) {
 		// a containment cycle that nothing outside it contains (detached from the root), or hanging off it
 		k := 2
